@@ -682,7 +682,8 @@ class C14(core.PropertyCheck):
                 p["crlf"] = True
         includes = []
         for i in range(rng.choice([0, 1, 1, 2])):
-            inc = {"name": f"shared-{i}", "blocks": blocks(PAGE_FAULTS, 1, 3, 0.8)}
+            # (sometimes a name that is not ASCII, spelled letter + combining accent as some systems hand names out)
+            inc = {"name": f"shared-{i}" if rng.random() < 0.7 else f"sharede\u0301-{i}", "blocks": blocks(PAGE_FAULTS, 1, 3, 0.8)}
             includes.append(inc)
             for p in rng.sample(pages, min(len(pages), rng.choice([1, 1, 2]))):
                 counter[0] += 1
